@@ -276,9 +276,37 @@ func init() {
 	typeSignature = declarationType
 }
 
+// MaxDepth limits how deep the types of a signature can be nested.
+// The parser and the types it constructs call themselves once per
+// level: the stack of a goroutine is the limit otherwise.
+const MaxDepth = 1000
+
+// nesting returns the deepest level of brackets of a signature.
+func nesting(input string) int {
+	depth, deepest := 0, 0
+	for i := 0; i < len(input); i++ {
+		switch input[i] {
+		case '[', '{', '(':
+			depth++
+			if depth > deepest {
+				deepest = depth
+			}
+		case ']', '}', ')':
+			if depth > 0 {
+				depth--
+			}
+		}
+	}
+	return deepest
+}
+
 // Parse reads a signature contained in a string and constructs its
 // type representation.
 func Parse(input string) (Type, error) {
+	if nesting(input) > MaxDepth {
+		return nil, fmt.Errorf("signature nested deeper than %d levels",
+			MaxDepth)
+	}
 	text := []byte(input)
 
 	root, rest := typeSignature(parsec.NewScanner(text))
